@@ -946,6 +946,11 @@ int EGLPNUM_TYPENAME_ILLsimplex (
 			lp->vstat[col] = EGLPNUM_TYPENAME_EGlpNumIsEqqual (lp->uz[col], EGLPNUM_TYPENAME_INFTY) ? STAT_ZERO : STAT_UPPER;
 		else if (lp->vstat[col] == STAT_UPPER && EGLPNUM_TYPENAME_EGlpNumIsEqqual (lp->uz[col], EGLPNUM_TYPENAME_INFTY))
 			lp->vstat[col] = EGLPNUM_TYPENAME_EGlpNumIsEqqual (lp->lz[col], EGLPNUM_TYPENAME_NINFTY) ? STAT_ZERO : STAT_LOWER;
+		/* ... and a variable that was free when it was parked at zero sits at a bound once it has one */
+		else if (lp->vstat[col] == STAT_ZERO && !EGLPNUM_TYPENAME_EGlpNumIsEqqual (lp->lz[col], EGLPNUM_TYPENAME_NINFTY))
+			lp->vstat[col] = STAT_LOWER;
+		else if (lp->vstat[col] == STAT_ZERO && !EGLPNUM_TYPENAME_EGlpNumIsEqqual (lp->uz[col], EGLPNUM_TYPENAME_INFTY))
+			lp->vstat[col] = STAT_UPPER;
 	}
 
 	if (lp->fbasisid != lp->basisid)
